@@ -201,6 +201,135 @@ def value_pairs_harness(e):
     return scenario
 
 
+# ------------------------------------------------------------------ data-symbolic origins
+_SYM_ORIGIN = None
+
+
+def _sym_origin_class():
+    """A user-defined origin class (the library's Origin is an open base class) whose equality
+    is decided by an integer key.  Under engine P the key is a z3 integer: `a.origin == b.origin`
+    inside the real `__eq__` yields a SymBool and the solver decides which outcomes are feasible
+    under the path condition - so one path stands for ALL integer keys with that outcome, and
+    symmetric / transitive consequences of earlier comparisons are derived by z3, not enumerated."""
+    global _SYM_ORIGIN
+    if _SYM_ORIGIN is None:
+        from dataclasses import dataclass
+        from dataclasses import field as dfield
+
+        from pyoak.origin import NO_POSITION, NO_SOURCE, Origin, Position, Source
+
+        @dataclass(frozen=True, eq=False)
+        class KeyOrigin(Origin):
+            source: Source = dfield(default=NO_SOURCE)
+            position: Position = dfield(default=NO_POSITION)
+            key: Any = 0
+            tag: str = ""
+
+            @property
+            def fqn(self) -> str:
+                return "key://" + self.tag
+
+            def __eq__(self, other):  # type: ignore[override]
+                if not isinstance(other, KeyOrigin):
+                    return False
+                return self.key == other.key
+
+            def __ne__(self, other):  # type: ignore[override]
+                if not isinstance(other, KeyOrigin):
+                    return True
+                return self.key != other.key
+
+            def __hash__(self) -> int:
+                return hash(self.tag)
+
+        _SYM_ORIGIN = KeyOrigin
+    return _SYM_ORIGIN
+
+
+def _all_equal(e, ks1, ks2):
+    """The oracle's verdict as a term: equal keys at every position."""
+    if getattr(e, "concrete", False):
+        return all(a == b for a, b in zip(ks1, ks2))
+    import z3
+
+    from symx.engine import SymBool
+
+    return SymBool(e, z3.And(*[a.expr == b.expr for a, b in zip(ks1, ks2)]))
+
+
+def _build_keyed(recipe, keys, tags, counter=None):
+    """Build the recipe with KeyOrigin(keys[i], tags[i]) at the i-th position (pre-order)."""
+    from models.zoo import CLASSES, _is_recipe
+
+    counter = counter if counter is not None else [0]
+    i = counter[0]
+    counter[0] += 1
+    cls, props, _o, kids = recipe
+    kw = dict(props)
+    # children in declaration order of the real class = the order of positions_of()
+    built = {}
+    for fname, idx, crec in kids_of(recipe):
+        built[(fname, idx)] = _build_keyed(crec, keys, tags, counter)
+    for fname, val in kids:
+        if val is None:
+            kw[fname] = None
+        elif _is_recipe(val):
+            kw[fname] = built[(fname, None)]
+        else:
+            kw[fname] = tuple(built[(fname, j)] for j in range(len(val)))
+    kw["origin"] = _sym_origin_class()(key=keys[i], tag=tags[i])
+    return CLASSES[cls](**kw)
+
+
+def make_symbolic_origin_harness(bases):
+    def harness(e):
+        reset_all()
+        bno = e.choice(len(bases), "base")
+        base = bases[bno]
+        n = len(positions_of(base))
+        fqn_mode = e.pick(["one-fqn-everywhere", "fqn-per-position", "fqn-per-object"], "fqn_mode")
+        third = e.flag("third_tree")
+        trees, keys = [], []
+        for t in range(3 if third else 2):
+            ks = [e.int(f"key_{'xyz'[t]}{i}") for i in range(n)]
+            tags = [{"one-fqn-everywhere": "k", "fqn-per-position": f"p{i}", "fqn-per-object": f"{'xyz'[t]}{i}"}[fqn_mode] for i in range(n)]
+            trees.append(_build_keyed(base, ks, tags))
+            keys.append(ks)
+        x, y = trees[0], trees[1]
+        scenario = {"kind": "symbolic-origin-keys", "tree": describe(base), "positions": n, "fqn_mode": fqn_mode}
+        hx = hash(x)
+        r1 = True if x == y else False  # the real __eq__ branches on SymBools, z3 decides each
+        want = _all_equal(e, keys[0], keys[1])
+        # solver-decided assertion: under the path condition of this path, is the opposite verdict of
+        # the oracle feasible?  (`if want` explores every feasible outcome)
+        w = True if want else False
+        scenario.update(eq=r1, expected_equal=w)
+        if r1 is not w:
+            e.fail(("equal-trees-compare-unequal" if w else "unequal-trees-compare-equal") + ":symbolic-origin-keys", scenario=scenario)
+        r2 = True if y == x else False
+        r3 = False if x != y else True
+        if r2 is not r1 or r3 is not r1:
+            scenario.update(eq_reversed=r2, ne=not r3)
+            e.fail("eq-not-symmetric-or-ne-not-negation:symbolic-origin-keys", scenario=scenario)
+        if hash(x) != hx:
+            e.fail("hash-changed", scenario=scenario)
+        if third:
+            z = trees[2]
+            r4 = True if y == z else False
+            r5 = True if x == z else False
+            w5 = True if _all_equal(e, keys[0], keys[2]) else False
+            scenario.update(eq_yz=r4, eq_xz=r5, expected_xz=w5)
+            if r5 is not w5:
+                e.fail(("equal-trees-compare-unequal" if w5 else "unequal-trees-compare-equal") + ":symbolic-origin-keys", scenario=scenario)
+            if r1 and r4 and not r5:
+                e.fail("eq-not-transitive", scenario=scenario)
+        e.count("symbolic_origin_paths")
+        e.distinct((bno, fqn_mode, bool(third)))
+        return scenario
+
+    return harness
+
+
 def _triple_pool():
     L = lambda v, o=None: R("VLeaf", {"v": v}, o)  # noqa: E731
     out = []
@@ -278,6 +407,10 @@ def spec(tier: str, seed: int) -> Spec:
     bases = bases + exotic_shapes()
     chunk = 6
     fams = [Family(f"origin-edit[{k}:{k + chunk}]", make_origin_harness(bases[k : k + chunk]), variables="selectors: base recipe, position, origin of x, origin of y, mode") for k in range(0, len(bases), chunk)]
+    sym_bases = (all_shapes(3, 3) + all_shapes(4, 3) + all_shapes(5, 3)[::4]) if tier == "quick" else (all_shapes(5, 3) + all_shapes(6, 3)[::3])
+    sym_bases = sym_bases + exotic_shapes()
+    for k in range(0, len(sym_bases), 24):
+        fams.append(Family(f"symbolic-origin-keys[{k}:{k + 24}]", make_symbolic_origin_harness(sym_bases[k : k + 24]), variables="data: one unbounded z3 integer origin key per position of x, y (and z); the real __eq__ branches on key equalities and z3 decides the feasible outcomes; oracle verdict = conjunction term, decided by z3 under the path condition; selectors: base recipe, fqn mode, third tree"))
     fams.append(Family("all-pairs", make_pairs_harness(all_shapes(3, 3)), variables="selectors: two recipes"))
     fams.append(Family("shared-objects", shared_harness, variables="selectors: origin per position of x and y, which positions hold one shared object, wrapper"))
     fams.append(Family("python-equal-values", value_pairs_harness, variables="selectors: two values from a pool of ==-equal / content-different values, class depth / position"))
